@@ -9,19 +9,19 @@ import (
 
 // GenOpts steers the program generator.
 type GenOpts struct {
-	Cfg       Config
-	MaxLines  int
-	UseLabels bool
-	UseEqus   bool
-	UseConsts bool
-	UseFor    bool // FOR/ROF blocks
-	MaxForExp int  // upper bound on block instances
-	OutsideRef bool // allow references to block labels from outside the block
+	Cfg         Config
+	MaxLines    int
+	UseLabels   bool
+	UseEqus     bool
+	UseConsts   bool
+	UseFor      bool // FOR/ROF blocks
+	MaxForExp   int  // upper bound on block instances
+	OutsideRef  bool // allow references to block labels from outside the block
 	NestedLabel bool // allow a block label on a block whose body starts with a nested FOR
-	Meta      bool
-	ExactLines int // when > 0: exactly this many instruction lines (plain programs only)
-	EndLabel  bool // allow a label on the END line
-	ManyLabels bool // one label per line
+	Meta        bool
+	ExactLines  int  // when > 0: exactly this many instruction lines (plain programs only)
+	EndLabel    bool // allow a label on the END line
+	ManyLabels  bool // one label per line
 }
 
 // the pools contain names that differ from a name of another pool only by letter case (gap/Gap, step/Step/STEP,
@@ -33,11 +33,11 @@ var ctrPool = []string{"i", "j", "n", "cnt", "ii"}
 func pick(r Rand, xs []string) string { return xs[r.Intn(len(xs))] }
 
 type genState struct {
-	r      Rand
-	o      GenOpts
-	labels []string // instruction labels available for reference
-	equs   []string
-	ctrs   []string // counters in scope
+	r         Rand
+	o         GenOpts
+	labels    []string // instruction labels available for reference
+	equs      []string
+	ctrs      []string // counters in scope
 	countEqus []string // EQUs already written out (usable in FOR counts)
 	labelEqus []string // EQUs whose text mentions a label (operands only)
 }
